@@ -125,6 +125,12 @@ const IDIOMS: &[(&str, &str)] = &[
         "list_duplicate_values",
         "=== k@ ===\n~ cur@ = D@.lo\nTwo is {D@(2)} and {D@(2)}, three is {D@(3)}.\n~ cur@ = cur@ + 1\nUp {cur@}: {LIST_ALL(cur@)}.\n~ cur@ = D@.hi - 1\nDown {cur@} {D@.lo + 1} {D@.hi - 1}.\n~ cur@++\n~ cur@--\nBack {cur@} of {LIST_ALL(cur@)}.\n-> NEXT\nGLOB LIST D@ = lo = 1, mid = 2, med = 2, mod = 2, hi = 3\nGLOB VAR cur@ = ()\n",
     ),
+    (
+        // the hub pattern: a variable divert that leads back into the knot (and the stitch) that
+        // contains it, set at declaration and again while playing
+        "variable_divert_hub",
+        "=== k@ ===\nHub @ {hn@}.\n~ hn@ = hn@ + 1\n+ {hn@ < 3} [again @]\n    -> hnx@\n+ {hn@ < 4} [inner @]\n    -> k@.in@\n* [leave @]\n    -> NEXT\n= in@\nInner @ {hn@}.\n~ hn@ = hn@ + 1\n~ hnx@ = -> k@.in@\n{hn@ < 6:\n    -> hnx@\n}\n~ hnx@ = -> k@\n-> hnx@\nGLOB VAR hnx@ = -> k@\nGLOB VAR hn@ = 0\n",
+    ),
 ];
 
 pub fn idiom_count() -> usize {
